@@ -641,4 +641,17 @@ example :
     s.cb.st = St.halfOpen ∧ s.held = [(2, s.cb.stateID)] ∧ s.refused = [4, 3] := by
   decide
 
+/-- `CircuitBreakerPolicy.CreateWrapper`, regenerated from the source on every run: which `libcb.Policy` the
+wrapped breaker is created with (Extension resil, round 3) -/
+theorem createWrapper_regenerated_from_source (raw : RawPolicy) (parse : String → Int × Bool) :
+    Gen.FactsC08IRc.extractionFailed = false ∧ Gen.FactsC08IRc.createWrapperIR raw parse = policyOf raw parse :=
+  ⟨by decide, CircuitBreaker.createWrapper_regenerated_from_source raw parse⟩
+
+/-- nothing configured: one minute slow threshold and open wait, no half-open maximum; configured
+durations are taken as parsed -/
+example :
+    let p := policyOf ⟨"COUNT_BASED", 50, 100, 10, 2, 5, "", "", "30s"⟩ (fun _ => (30000000000, false))
+    p.slowDur = 60000000000 ∧ p.maxWaitHalf = 0 ∧ p.waitOpen = 30000000000 ∧ p.failTh = 50 ∧ p.permitted = 2 := by
+  simp [policyOf]
+
 end EgVerif.C08
